@@ -579,6 +579,28 @@ func c16Dispatcher(c *vlib.Ctx) {
 		}
 		tr.mu.Unlock()
 		c16DispatcherRedirects(c, be)
+		// one route, one target, several deliveries settled together: denials next to
+		// other terminal outcomes must each keep their own DLQ reason
+		{
+			url := "https://mixed.example/hook"
+			routes := []dispatcher.RouteConfig{{Route: "/mix", Concurrency: 4, Targets: []dispatcher.TargetConfig{{URL: url, Timeout: time.Second, Retry: dispatcher.RetryConfig{Max: 2, Base: time.Second, Cap: time.Minute}}}}}
+			var msgs []pushcheck.Message
+			for i := 0; i < 24; i++ {
+				msgs = append(msgs, pushcheck.Message{ID: fmt.Sprintf("mix%02d", i), Route: "/mix", Target: url})
+			}
+			pushcheck.Run(c, pushcheck.Scenario{Label: "C16/dispatcher-mixed/" + be, Backend: be, Routes: routes, Messages: msgs,
+				Script: func(msg, _ string, _ int) pushcheck.Behaviour {
+					switch (int(msg[3]-'0')*10 + int(msg[4]-'0')) % 4 {
+					case 0:
+						return pushcheck.Behaviour{Err: "policy"}
+					case 1:
+						return pushcheck.Behaviour{Status: 404}
+					case 2:
+						return pushcheck.Behaviour{Status: 200}
+					}
+					return pushcheck.Behaviour{Status: 410}
+				}})
+		}
 	}
 }
 
